@@ -12,6 +12,17 @@ from campaigns.history import HistoryCampaign
 from simkit.world import Monitor, World
 
 
+def _single_vector_op(op: dict) -> bool:
+    t = op.get("type")
+    if t in ("Ball", "Box", "Sphere"):
+        return True
+    if t == "sum":
+        return all(_single_vector_op(x) for x in op["items"])
+    if t == "mul":
+        return _single_vector_op(op["item"])
+    return False
+
+
 class C11Monitor(Monitor):
     prop = "C11"
 
@@ -120,6 +131,17 @@ class C11Monitor(Monitor):
                     self.violate(w, "group_not_moved_by_common_result", self._ctx(w, name),
                                  f"{kind}: displacement of rows {g} is {delta[g].tolist()} but the operation returned {r.tolist()}")
                 w.result.count("probe.common_result_checked")
+            # Ball / Box / Sphere (and sums of them) return ONE vector: every atom of the group gets the same shift
+            spec = next((e["move"] for i, e in enumerate(w.sc["moves"]) if e.get("name", f"m{i}") == name), None)
+            if (not cons and len(group) > 1 and spec is not None and spec.get("type") == "disp" and spec.get("op")
+                    and _single_vector_op(spec["op"])):
+                g = sorted(group)
+                tol = 1e-9 * max(1.0, float(np.max(np.abs(moved_pos), initial=0.0)))
+                if not np.allclose(delta[g], delta[g][0], rtol=0, atol=tol):
+                    self.violate(w, "group_not_moved_by_common_result", self._ctx(w, name),
+                                 f"{kind}: the atoms of label {L} (rows {g}) were shifted by different vectors {delta[g].tolist()}; "
+                                 f"this operation draws one displacement vector for the whole group")
+                w.result.count("probe.rigid_shift_checked")
             w.result.count("probe.single_moves_judged")
             return
         # composite of displacement moves
